@@ -56,7 +56,7 @@ P('C01', claimed=True, needs_driver=True, level='other',
   unreached=['acceptance by a real scsynth'])
 
 P('C02', claimed=True, needs_driver=True, level='other',
-  contracts=['synth_fmtrw', 'synth_writer', 'synth_synthdef_graph'], drivers=['vf.drivers.C02'],
+  contracts=['synth_fmtrw', 'synth_writer', 'synth_synthdef_graph', 'synth_toposort'], drivers=['vf.drivers.C02'],
   level_text=('Discharged (pyvc, all inputs): byte lengths and value ranges of the primitive writers; the field '
               'sequence a unit writes (SynthObject._write_def: name, rate number, input count, output count, '
               'special index as i16, then exactly one input spec per input in order, then the output specs - '
@@ -64,7 +64,15 @@ P('C02', claimed=True, needs_driver=True, level='other',
               '(_write_input_spec = (unit index, output index), _rate_number, _write_output_spec(s), '
               'MultiOutUGen: one spec per channel in order); constants as inputs (-1, slot of float(value), '
               'refused without writing when the constant is unknown); sequences as inputs; OutputProxy wire '
-              'coordinates; the file header (SCgf, version 2, definition count). Bounded: well-formedness of '
+              'coordinates; the file header (SCgf, version 2, definition count); the unit table (_add_ugen: index '
+              '= position appended at, ignored during a rewrite; _remove_ugen: exactly the own slot cleared; '
+              '_index_ugens: unit at position i gets index i; _add_constant: next free slot for a new value, '
+              'nothing for a known one; lemma: distinct slots); the per-unit steps of the topological sort '
+              '(_init_topo_sort: both edges per unit input, through the source unit for proxies, and per '
+              'width-first antecedent; _make_available iff no antecedent left; _remove_antecedent; _arrange: every '
+              'descendant released once, THEN self appended) and its driver loop (one pop and one arrange per '
+              'pass onto the one output list, which becomes the table), with the ordering lemma (Kahn) over '
+              'these contracts. Bounded: well-formedness of '
               'whole definitions (complete parse as one SCgf-2 definition, wires refer to earlier units/'
               'existing constants, width-first ordering, consistent counts, acceptance by the library reader '
               'incl. every output unit the source creates, rejection of invalid graphs) with an independent '
